@@ -308,8 +308,15 @@ def run(tier, replay=None):
 #   python3 tools/checks/C01.py build-corpus <profile> <seed> <n>     generate + vet one corpus file
 #   python3 tools/checks/C01.py vet [quick|thorough]                   recompute corpus/c01/expected_failures.json
 
+def _bindir():
+    # development tools may reuse the existing binary (C01_NO_BUILD=1) when the shared target directory is busy
+    if os.environ.get("C01_NO_BUILD"):
+        return os.path.join(vlib.HARNESS, "target", "debug")
+    return vlib.build_harness(["hjs"])
+
+
 def _build_corpus(profile, seed, n):
-    bindir = vlib.build_harness(["hjs"])
+    bindir = _bindir()
     runner = Runner(None, os.path.join(bindir, "hjs"), 3)
     progs = jscore.gen_programs(seed, n, profile)
     items = [("gen/%d" % i, p, modes_for(p, True)) for i, p in enumerate(progs)]
@@ -336,7 +343,7 @@ def _build_corpus(profile, seed, n):
 
 
 def _vet(tier):
-    bindir = vlib.build_harness(["hjs"])
+    bindir = _bindir()
     runner = Runner(None, os.path.join(bindir, "hjs"), 3)
     items = [(n, a, modes_for(a, True)) for n, a in jscore.grids(tier)] + [(n, a, modes_for(a, True)) for n, a in load_corpus()]
     fails = []
